@@ -631,7 +631,20 @@ def run(chk):
     r5.anchor(ad is not None, "Assign_Decl_AST_Node::eval_internal")
     cl = [n for n in walk(ad["body"]) if n.get("k") == "call" and n.get("name") == "clone_if_necessary"]
     add = [n for n in walk(ad["body"]) if n.get("k") == "call" and n.get("name") in ("add_object", "add_get_object")]
-    okad = len(cl) == 1 and len(add) == 1 and any(x.get("k") == "call" and x.get("name") == "eval" for x in walk(cl[0])) and cl[0]["l"] <= add[0]["l"]
+    from ..paths import ref_inits as _ri
+    adl = _ri(ad)
+
+    def has_eval(e, depth=0):
+        """the initialiser's value: `children[1]->eval(..)` written in place or held in a local first"""
+        for x in walk(e):
+            if x.get("k") == "call" and x.get("name") == "eval":
+                return True
+            if x.get("k") == "ref" and x.get("rk") == "local" and depth < 2:
+                v = adl.get(x.get("vid"))
+                if v is not None and v.get("init") is not None and has_eval(v["init"], depth + 1):
+                    return True
+        return False
+    okad = len(cl) == 1 and len(add) == 1 and any(has_eval(a) for a in cl[0].get("args") or []) and cl[0]["l"] <= add[0]["l"]
     r5.ob("Assign_Decl (`var x = e`): the declared variable holds clone_if_necessary(e)", okad, ad.where, ad["q"], "clone: %d, add_object: %d" % (len(cl), len(add)))
     # clone_if_necessary hands back either a fresh copy or the temporary itself with its temporary-flag cleared: a stored value
     # that still counts as a temporary would be aliased (not copied) by the next `var y = x`
